@@ -49,8 +49,114 @@ let do_multi_run l =
             | _ -> "BAD")
        | _ -> "BAD")
   | _ -> "BAD"
+
+(* ---- Context race LTS --------------------------------------------------------------------------
+   config :=  ndeps {name k dep^k}  nso {k in^k m out^m}  fuel
+              nreg {name cls}  cache: -1 or n {name cls}
+              nthreads {nitems item..}
+     item := 1 k t^k | 2 t | 3 t c | 4 | 5 l t | 6 k t^k nsf
+   ctx <config> nseg {tid count}     run the schedule, then every thread to completion in tid order
+        out: per thread  T status(D | R | C kind lbl) ntrace lbl..   then G and the _get_plugins results
+   ctxsearch <config> astride bstride   2 threads: T0 a steps, T1 b steps, then drain; all crash classes
+        out: N nclasses {tid kind lbl a b}                                                           *)
+let cur = ref [||] and pos = ref 0
+let next () = let v = !cur.(!pos) in incr pos; v
+let nexts k = List.init k (fun _ -> next ())
+let zs l = List.map z_of_int l
+let parse_config () =
+  let ndeps = next () in
+  let deps = List.init ndeps (fun _ -> let n = next () in let k = next () in (z_of_int n, zs (nexts k))) in
+  let nso = next () in
+  let so = List.init nso (fun _ -> let k = next () in let i = zs (nexts k) in let m = next () in (i, zs (nexts m))) in
+  let fuel = next () in
+  let nreg = next () in
+  let reg = List.init nreg (fun _ -> let n = next () in let c = next () in (z_of_int n, z_of_int c)) in
+  let nc = next () in
+  let (curc, heap) =
+    if nc < 0 then (None, [])
+    else (Some O, [ { d_items = List.init nc (fun _ -> let n = next () in let c = next () in (z_of_int n, z_of_int c)); d_ver = O } ]) in
+  let nth = next () in
+  let progs = List.init nth (fun _ ->
+    let ni = next () in
+    List.init ni (fun _ ->
+      match next () with
+      | 1 -> let k = next () in MGetPlugins (zs (nexts k))
+      | 2 -> MKeyFor (z_of_int (next ()))
+      | 3 -> let t = next () in let c = next () in HRegGet (z_of_int t, z_of_int c)
+      | 4 -> HSnap
+      | 5 -> let l = next () in let t = next () in HRead (z_of_int l, z_of_int t)
+      | 6 -> let k = next () in let ts = zs (nexts k) in let nsf = next () in MEstimate (ts, nat_of_int nsf)
+      | _ -> failwith "item")) in
+  let c = { c_deps = deps; c_setorder = so; c_fuel = nat_of_int fuel } in
+  let sh = { sh_reg = { d_items = reg; d_ver = O }; sh_cur = curc; sh_heap = heap } in
+  (c, sh, progs)
+let show_status th =
+  match th.th_status with
+  | Running -> "R" | Done -> "D"
+  | Crashed (k, l) -> Printf.sprintf "C %d %d" (int_of_z k) (int_of_z l)
+let show_sys s =
+  String.concat " " (List.map (fun th ->
+    let tr = List.rev_map int_of_z th.th_trace in
+    Printf.sprintf "T %s %d %s" (show_status th) (List.length tr) (join tr)) s.s_ths)
+let rec run_n c s tid n = if n <= 0 then s else
+  (match List.nth_opt s.s_ths tid with
+   | Some th when th.th_status = Running -> run_n c (sys_step c s (nat_of_int tid)) tid (n - 1)
+   | _ -> s)
+let drain_all c s nth = let s = ref s in
+  for t = 0 to nth - 1 do s := run_n c !s t 1000000 done; !s
+let do_ctx l =
+  cur := Array.of_list l; pos := 0;
+  let (c, sh, progs) = parse_config () in
+  let nseg = next () in
+  let s = ref (init_sys c sh progs) in
+  for _ = 1 to nseg do let tid = next () in let n = next () in s := run_n c !s tid n done;
+  let s = drain_all c !s (List.length progs) in
+  show_sys s ^ " G " ^ String.concat " " (List.map (fun th ->
+      String.concat "," (List.map (fun g -> String.concat "." (List.map (fun z -> string_of_int (int_of_z z)) g)) (List.rev th.th_got))) s.s_ths)
+let steps_left c s tid = (* number of steps thread tid makes when run alone *)
+  let rec go s n = match List.nth_opt s.s_ths tid with
+    | Some th when th.th_status = Running -> go (sys_step c s (nat_of_int tid)) (n + 1)
+    | _ -> n in go s 0
+let do_ctxsearch l =
+  cur := Array.of_list l; pos := 0;
+  let (c, sh, progs) = parse_config () in
+  let astride = next () in let bstride = next () in
+  let s0 = init_sys c sh progs in
+  let classes = Hashtbl.create 16 in
+  let order = ref [] in
+  let record s a b =
+    List.iteri (fun tid th -> match th.th_status with
+      | Crashed (k, lb) ->
+          let key = (tid, int_of_z k, int_of_z lb) in
+          if not (Hashtbl.mem classes key) then begin Hashtbl.add classes key (a, b); order := key :: !order end
+      | _ -> ()) s.s_ths in
+  let n0 = steps_left c s0 0 in
+  let a = ref 0 in
+  let sa = ref s0 in
+  while !a <= n0 do
+    (* thread 1 advances b steps from sa *)
+    let sb = ref !sa in
+    let b = ref 0 in
+    let continue = ref true in
+    while !continue do
+      let fin = drain_all c !sb 2 in
+      record fin !a !b;
+      (match List.nth_opt !sb.s_ths 1 with
+       | Some th when th.th_status = Running ->
+           sb := run_n c !sb 1 bstride; b := !b + bstride
+       | _ -> continue := false)
+    done;
+    sa := run_n c !sa 0 astride; a := !a + astride
+  done;
+  let ks = List.rev !order in
+  Printf.sprintf "N %d %s" (List.length ks)
+    (String.concat " " (List.map (fun ((tid, k, lb) as key) ->
+       let (a, b) = Hashtbl.find classes key in Printf.sprintf "%d %d %d %d %d" tid k lb a b) ks))
+
 let handle toks =
   match toks with
   | "multi_run" :: rest -> do_multi_run (ints rest)
+  | "ctx" :: rest -> do_ctx (ints rest)
+  | "ctxsearch" :: rest -> do_ctxsearch (ints rest)
   | _ -> "UNKNOWN"
 let () = main_loop handle
